@@ -222,6 +222,12 @@ fn fam_reject() -> Report {
             ("v ^@ 0 |> f", "one operand of two, then an operator"),
             ("v <-> u8, u16", "two operands of four"),
             ("v <-> u8, u16, Vec<u8> |> f", "three operands of four, then an operator"),
+            // tokens directly after a `>>>` (the wrapper has no operand of its own)
+            ("Some(Some(1)) => >>> (oops) |> f <<<, Some(2) |> g", "an operand directly after `>>>`"),
+            ("Some(1) |> >>> oops |> f", "an operand directly after `>>>`"),
+            ("Some(1) |> >>> { x } <<<", "a block directly after `>>>`"),
+            ("Some(Some(1)) => >>> (oops) |> f <<<, Some(2) |> g, map => |a, b| a", "an operand directly after `>>>`, more branches and a handler behind it"),
+            ("Some(1) |> >>> |> f ~", "`~` with nothing behind it inside a wrapper"),
             ("let (a, b) = Some(1) |> f", "non-identifier `let` pattern (tuple)"),
             ("let Some(a) = Some(1) |> f", "non-identifier `let` pattern (tuple struct)"),
             ("let _ = Some(1) |> f", "non-identifier `let` pattern (wildcard)"),
